@@ -5,3 +5,4 @@ import CattrsModel.Props.C02
 import CattrsModel.Props.C04
 import CattrsModel.Disambig.Driver
 import CattrsModel.Props.C12
+import CattrsModel.Props.C03
